@@ -1,4 +1,7 @@
 """C03 — Whatever is revoked, removed or replaced is withdrawn and stays on the CRL."""
+import sys
+from pathlib import Path
+sys.path.insert(0, str(Path(__file__).resolve().parent))
 import objlib
 
 RULE = ("stream system judged by `kmodel sysobjects C03`: seeded histories (object replacement/removal, child remove/suspend, "
